@@ -52,6 +52,7 @@ fn main() {
             args[4].parse().unwrap(),
             args.get(5).map(|s| s.as_str()),
         ),
+        "build-bench" => threadsim::build_bench(),
         "tgen" if args.len() >= 5 => {
             let sc = tgen::gen_thread(&args[2], args[3].parse().unwrap(), args[4].parse().unwrap());
             println!("{}", serde_json::to_string_pretty(&sc).unwrap());
